@@ -281,7 +281,19 @@ def full_section_battery(opfmt):
             if a > f:
                 h.op(opfmt.format(s=f"I:{a}", e="U"))
         h.op(opfmt.format(s=f"I:{last - 1}", e=f"I:{U64}"))
+        # spans of a whole full section and more
+        for s_, e_ in [("U", "U"), (f"I:{f}", f"I:{last}"), (f"I:{f}", f"E:{last}"), (f"E:{f}", f"I:{last + 2}"), (f"I:{f + 1}", "U")]:
+            h.op(opfmt.format(s=s_, e=e_))
         out.append((f"full-section-p{p}", h.script()))
+    # two completely full sections in a row (payload 1 has 4-line section headers)
+    for p in [1]:
+        h = Hist(p)
+        h.new()
+        h.pushrun(10000, 1, 2 * (MAXD + 1), 3)
+        h.pushrun(h.last() + 1, 1, 3, 4)
+        for s_, e_ in [("U", "U"), ("I:10000", f"I:{10000 + 2 * MAXD + 1}"), (f"I:{10000 + MAXD}", f"I:{10000 + MAXD + 1}")]:
+            h.op(opfmt.format(s=s_, e=e_))
+        out.append((f"two-full-sections-p{p}", h.script()))
     return out
 
 
@@ -1321,6 +1333,15 @@ def gen_C09(rng, tier):
 
 def gen_C10(rng, tier):
     out = []
+    # very long ranges with a very small n: the bucket size exceeds 16 bits (several full sections)
+    for p, count in ([(0, 200000)] if tier == "quick" else [(0, 200000), (4, 140000), (1, 330000)]):
+        h = Hist(p)
+        h.new()
+        h.pushrun(1700000000, 1, count, 7)
+        for n in (1, 2, 3):
+            h.op(f"read_n n={n} s=U e=U")
+        h.op(f"read_n n=1 s=I:{1700000000 + 1000} e=I:{1700000000 + count - 1000}")
+        out.append((f"huge-range-small-n-p{p}", h.script()))
     fmt_ns = [1, 2, 3, 10, 100, 10 ** 6]
     # directed: one bucket spanning most of the u64 range (small and huge timestamps mixed)
     for p in [4, 0]:
@@ -1697,6 +1718,24 @@ def gen_C17(rng, tier):
             h.op("files")
         out.append(("contract", h.script()))
     out += text_header_battery(tier)
+    # series names that contain a dot: every way of naming the series (with / without the file
+    # extension) x every builder flavour must reach the same files
+    for nm in ("s.v2", "s.4"):
+        for p in (0, 3):
+            h = Hist(p, hdr=b"living room")
+            h.op(f"new p={p} hdr={hexs(h.hdr)} caches=- name={nm}")
+            h.push(5, pl=bytes(p))
+            h.op("close")
+            h.op("files")
+            for ext in (0, 1):
+                for pw in ("any", str(p)):
+                    for hw in ("any", hexs(h.hdr)):
+                        h.op(f"open p={pw} hdr={hw} caches=- cb=none ext={ext} name={nm}")
+                        h.op("payload_size")
+                        h.op("len")
+                        h.op("close")
+            h.op("files")
+            out.append((f"dotted-name-{nm}-p{p}", h.script()))
     out += [x for x in error_path_battery(tier) if x[0].startswith("other-version")]
     # stale sidecar files make a create fail: nothing new may be left behind
     for stale in ["index", "part"]:
@@ -1757,17 +1796,27 @@ def gen_C18(rng, tier):
             H = header_len(p, 0)
             h.op("close")
             h.op("save 0")
-            for where in ("marker2", "delta"):
+            for where in ("marker2", "delta", "marker2-noindex", "last-marker2"):
                 for cb in ["T", "F", "none"]:
                     h.op("restore 0")
                     if where == "marker2":
                         h.op(f"damage data {H + h.sections[1][1] + h.ls} 0000")
+                    elif where == "marker2-noindex":
+                        # the index is lost after the damage and rebuilt without the damaged section
+                        h.op(f"damage data {H + h.sections[1][1] + h.ls} 0000")
+                        h.op("rm index")
+                    elif where == "last-marker2":
+                        h.op(f"damage data {H + h.sections[-1][1] + h.ls} 0000")
                     else:
                         # the delta of the first data line of section B becomes FF FF
                         h.op(f"damage data {H + h.sections[1][1] + h.ms} ffff")
                     h.open(cb=cb)
                     h.op("read_all s=U e=U")
                     h.op("read_first_n n=4 s=U e=U")
+                    # bounded reads that start behind the last line of the section before the damage
+                    h.op(f"read_all s=I:{1002 + 50} e=U")
+                    h.op(f"read_all s=I:{b0 + 300} e=U")
+                    h.op(f"read_all s=E:{h.ts[-3]} e=U")
                     h.op("close")
             out.append((f"skip-delta-{last_delta}-p{p}", h.script()))
     for i in range(14 if tier == "quick" else 120):
